@@ -56,7 +56,7 @@ class Sub:
     examples: Dict[str, int]                # {"quick": n, "thorough": n}   (total over all shards)
     case_timeout: int = 120                 # seconds; a case that runs longer is counted, never a violation
     budget_s: Dict[str, float] = field(default_factory=lambda: {"quick": 60.0, "thorough": 600.0})
-    fixed_cases: Callable[[], List[dict]] = None   # optional deterministic cases run by shard 0 first
+    fixed_cases: Callable[[], List[dict]] = None   # optional deterministic cases, dealt round robin to the shards and run first
 
 
 class CaseTimeout(Exception):
@@ -276,10 +276,11 @@ def run_sub_in_shard(prop: str, sub: Sub, tier: str, seed: int, shard: int, nsha
             new.append((sig, msg))
         return new
 
-    # deterministic cases first (shard 0 only)
+    # deterministic cases first
     fixed_failures = []
-    if shard == 0 and sub.fixed_cases is not None:
-        for case in sub.fixed_cases():
+    if sub.fixed_cases is not None:
+        # deterministic cases, dealt round robin to the shards (every one of them runs in every run of the sub)
+        for case in list(sub.fixed_cases())[shard::nshards]:
             new = evaluate(case)
             for sig, msg in new:
                 fixed_failures.append((sig, msg, case))
